@@ -176,6 +176,56 @@ func syncRetryClone(repo string) (string, string, error) {
 			}
 		}
 	}
+	// Request.do asks r.Context() afresh for the stop decision and for the wait of every attempt
+	// (a context installed by a middleware or a hook after Do started must be honoured): inside
+	// the loop, `contextCanceled := ... r.Context().Err() != nil` and `sleepContext(r.Context(), ...)`
+	ctxPerAttempt := false
+	if do := findFunc(files, "*Request", "do"); do != nil && do.Body != nil {
+		stop, wait := false, false
+		ast.Inspect(do.Body, func(n ast.Node) bool {
+			loop, ok := n.(*ast.ForStmt)
+			if !ok {
+				return true
+			}
+			ast.Inspect(loop.Body, func(m ast.Node) bool {
+				switch x := m.(type) {
+				case *ast.AssignStmt:
+					if len(x.Lhs) == 1 && exprString(x.Lhs[0]) == "contextCanceled" && len(x.Rhs) == 1 {
+						ast.Inspect(x.Rhs[0], func(k ast.Node) bool {
+							if c, ok := k.(*ast.CallExpr); ok && exprString(c) == "r.Context().Err()" {
+								stop = true
+							}
+							return true
+						})
+					}
+				case *ast.CallExpr:
+					if exprString(x.Fun) == "sleepContext" && len(x.Args) == 2 && exprString(x.Args[0]) == "r.Context()" {
+						wait = true
+					}
+				}
+				return true
+			})
+			return false
+		})
+		ctxPerAttempt = stop && wait
+	}
+	// SetBodyBytes: GetBody builds a NEW reader on every call (attempts never share a reader)
+	freshReader := false
+	if sb := findFunc(files, "*Request", "SetBodyBytes"); sb != nil && sb.Body != nil {
+		ast.Inspect(sb.Body, func(n ast.Node) bool {
+			fl, ok := n.(*ast.FuncLit)
+			if !ok {
+				return true
+			}
+			for _, stmt := range fl.Body.List {
+				if ret, ok := stmt.(*ast.ReturnStmt); ok && len(ret.Results) == 2 && len(fl.Body.List) == 1 &&
+					exprString(ret.Results[0]) == "io.NopCloser(bytes.NewReader(body))" {
+					freshReader = true
+				}
+			}
+			return false
+		})
+	}
 	type st struct{ recv, name, field string }
 	setters := []st{
 		{"*Client", "SetCommonRetryCondition", "RetryConditions"}, {"*Client", "AddCommonRetryCondition", "RetryConditions"},
@@ -195,6 +245,8 @@ func syncRetryClone(repo string) (string, string, error) {
 	fmt.Fprintf(&sb, "(* retryOption.Clone: o.RetryConditions / o.RetryHooks *)\nDefinition clone_conditions : clone_mode := %s.\nDefinition clone_hooks : clone_mode := %s.\n\n", cloneMode(clone, "RetryConditions"), cloneMode(clone, "RetryHooks"))
 	fmt.Fprintf(&sb, "(* Client.R() gives the request c.retryOption.Clone() *)\nDefinition r_clones_option : bool := %s.\n\n", hk.CoqBool(rClones))
 	fmt.Fprintf(&sb, "(* Request.do begins with unmergeClientSettings, which restarts RetryAttempt at 0 whatever the entry point *)\nDefinition do_resets_attempt : bool := %s.\n\n", hk.CoqBool(resets))
+	fmt.Fprintf(&sb, "(* Request.do consults r.Context() itself for the stop decision and the wait of every attempt *)\nDefinition ctx_read_per_attempt : bool := %s.\n\n", hk.CoqBool(ctxPerAttempt))
+	fmt.Fprintf(&sb, "(* SetBodyBytes' GetBody returns a reader of its own on every call *)\nDefinition getbody_fresh_reader : bool := %s.\n\n", hk.CoqBool(freshReader))
 	sb.WriteString("(* what each setter does to its slice *)\nDefinition setter_table : list (bytes * setter_kind) := [\n" + strings.Join(rows, ";\n") + "\n].\n")
 	return "RetryClone.v", sb.String(), nil
 }
